@@ -6,10 +6,12 @@
 (* known a priori (Unimod / PSI-MOD / XLMOD entries the author knows).        *)
 EXTENDS Chem
 
-(* sugars = number of monosaccharide units (used only to describe a recorded finding about tabulated averages) *)
+(* sugars = number of vocabulary units whose mass the library takes from a table (monosaccharide units and named *)
+(* Unimod / PSI-MOD / XLMOD entries); used only to describe the recorded finding about tabulated-mass rounding    *)
 Unres == [ok |-> FALSE, comp |-> EmptyComp, delta |-> FZero, sugars |-> 0]
 SemComp(c) == [ok |-> TRUE, comp |-> c, delta |-> FZero, sugars |-> 0]
 SemDelta(d) == [ok |-> TRUE, comp |-> EmptyComp, delta |-> d, sugars |-> 0]
+Tab(c) == [ok |-> TRUE, comp |-> c, delta |-> FZero, sugars |-> 1]      \* one tabulated vocabulary entry
 
 (* decimal text -> Fix (up to 9 decimals); IsCountText-like syntax with optional sign *)
 RECURSIVE Pow10(_)
@@ -107,18 +109,18 @@ SemAlt(t) ==
       [] p = "info" -> Unres
       [] p \in {"u", "unimod"} ->
             IF IsDecimalText(b) /\ At(b, 1) \in {"+", "-"} THEN SemDelta(DecimalFix(b))
-            ELSE IF b \in UnimodNames THEN SemComp(NameComp(b))
-            ELSE IF UnimodAcc(b) # "" THEN SemComp(NameComp(UnimodAcc(b))) ELSE Unres
+            ELSE IF b \in UnimodNames THEN Tab(NameComp(b))
+            ELSE IF UnimodAcc(b) # "" THEN Tab(NameComp(UnimodAcc(b))) ELSE Unres
       [] p \in {"m", "mod", "psi-mod"} ->
             IF IsDecimalText(b) /\ At(b, 1) \in {"+", "-"} THEN SemDelta(DecimalFix(b))
-            ELSE IF b \in PsiNames THEN SemComp(NameComp(b))
-            ELSE IF PsiAcc(b) # "" THEN SemComp(NameComp(PsiAcc(b))) ELSE Unres
+            ELSE IF b \in PsiNames THEN Tab(NameComp(b))
+            ELSE IF PsiAcc(b) # "" THEN Tab(NameComp(PsiAcc(b))) ELSE Unres
       [] p \in {"x", "xlmod"} ->
             IF IsDecimalText(b) /\ At(b, 1) \in {"+", "-"} THEN SemDelta(DecimalFix(b))
-            ELSE IF b \in XlNames THEN SemComp(NameComp(b))
-            ELSE IF XlAcc(b) # "" THEN SemComp(NameComp(XlAcc(b))) ELSE Unres
+            ELSE IF b \in XlNames THEN Tab(NameComp(b))
+            ELSE IF XlAcc(b) # "" THEN Tab(NameComp(XlAcc(b))) ELSE Unres
       [] OTHER -> (* bare name: Unimod first, then PSI-MOD (names containing ':' such as Label:13C(6) are bare names) *)
-            IF t \in UnimodNames \cup PsiNames THEN SemComp(NameComp(t)) ELSE Unres
+            IF t \in UnimodNames \cup PsiNames THEN Tab(NameComp(t)) ELSE Unres
 
 StripTag(t) == LET h == IndexOf(t, "#") IN IF h = 0 THEN t ELSE Before(t, h)
 
